@@ -113,13 +113,14 @@ pub struct Case<'a, T> { pub v: T, pub a: Vec<T>, pub b: Vec<T>, pub r: Vec<T>, 
 ///   x  every xmm register holds all-ones (a NaN / -1 pattern) when the routine is entered
 ///   z  every xmm register holds zero when the routine is entered
 ///   b  (changes the output format only) NaN results are printed with sign and payload, "nan:<bits>"
-pub struct PlaceSpec<'a> { pub pa: &'a str, pub pb: &'a str, pub pr: &'a str, pub alt: bool, pub hist: bool, pub dirty: u8, pub raw: bool }
+///   e  the second input IS the first one (the same memory is passed for a and b; the case's b data equal its a data)
+pub struct PlaceSpec<'a> { pub pa: &'a str, pub pb: &'a str, pub pr: &'a str, pub alt: bool, pub hist: bool, pub dirty: u8, pub raw: bool, pub alias: bool }
 impl<'a> PlaceSpec<'a> {
     pub fn parse(tok: &'a str) -> Self {
         let (spec, flags) = match tok.find('+') { Some(k) => (&tok[..k], &tok[k + 1..]), None => (tok, "") };
         let parts: Vec<&str> = spec.split('/').collect();
         let (pa, pb, pr) = if parts.len() == 3 { (parts[0], parts[1], parts[2]) } else { (spec, spec, spec) };
-        PlaceSpec { pa, pb, pr, alt: flags.contains('p'), hist: flags.contains('h'), raw: flags.contains('b'),
+        PlaceSpec { pa, pb, pr, alt: flags.contains('p'), hist: flags.contains('h'), raw: flags.contains('b'), alias: flags.contains('e'),
                     dirty: if flags.contains('x') { 1 } else if flags.contains('z') { 2 } else { 0 } }
     }
     pub fn canaries(&self) -> (u8, u8, u8) { if self.alt { (0xFF, 0x00, 0x7F) } else { (0xA5, 0x5A, 0xC3) } }
@@ -218,8 +219,9 @@ pub fn run_any<T: Elem>(f: AnyFn<T>, toks: &[&str]) -> String {
     let mut gr = Guarded::new(&c.r, sp.pr, can.2);
     let (snap_a, snap_b) = (bytes_of(&c.a), bytes_of(&c.b));
     let dirty = sp.dirty;
+    let alias = sp.alias;
     let res = catch_unwind(AssertUnwindSafe(|| unsafe {
-        let (sa, sb) = (ga.slice(), gb.slice());
+        let sa = ga.slice(); let sb = if alias { ga.slice() } else { gb.slice() };
         match f {
             AnyFn::Dist(g) => { dirty_vector_registers(dirty); Some(g(sa, sb)) }
             AnyFn::Horiz(g) => { dirty_vector_registers(dirty); Some(g(sa)) }
